@@ -115,8 +115,35 @@ func (f *fsModel) handle(v Value) *fsHandle {
 	return f.handles[int(s[0].(Int).conc())]
 }
 
+// isDir tells if path is a directory of the model: some file lives below it (forking on symbolic equality).
+func (f *fsModel) isDir(x *Exec, path Str) bool {
+	path = cleanPath(path)
+	n := path.Len()
+	for _, fl := range f.files {
+		if fl.gone || fl.path.Len() <= n+1 {
+			continue
+		}
+		pre := x.strSlice(fl.path, 0, n)
+		sep := x.strByte(fl.path, n)
+		if sep.S != nil || sep.C != '/' {
+			continue
+		}
+		e := x.strEq(pre, path)
+		if e.IsFalse() {
+			continue
+		}
+		if x.branch(e) {
+			return true
+		}
+	}
+	return false
+}
+
 func (f *fsModel) create(x *Exec, name Str) Value {
 	f.step(x, "create", name)
+	if f.isDir(x, name) {
+		return nil
+	}
 	fl := f.find(x, name)
 	if fl == nil {
 		fl = &fsFile{path: cleanPath(name)}
@@ -178,7 +205,11 @@ func (h *fsHandle) writeAtPos(data []Value) {
 func (f *fsModel) intrinsic(x *Exec, name string, args []Value) (Value, bool) {
 	switch name {
 	case "os.Create":
-		return ret2(f.create(x, args[0].(Str)), Iface{}), true
+		h := f.create(x, args[0].(Str))
+		if h == nil {
+			return ret2(Ptr{}, x.mkError("open "+describe(args[0].(Str))+": is a directory")), true
+		}
+		return ret2(h, Iface{}), true
 	case "os.Open":
 		nm := args[0].(Str)
 		f.step(x, "open", nm)
@@ -192,6 +223,9 @@ func (f *fsModel) intrinsic(x *Exec, name string, args []Value) (Value, bool) {
 		flag := int(args[1].(Int).conc())
 		const oWRONLY, oRDWR, oCREATE, oEXCL, oTRUNC, oAPPEND = 0x1, 0x2, 0x40, 0x80, 0x200, 0x400
 		f.step(x, "open", nm)
+		if flag&(oWRONLY|oRDWR) != 0 && f.isDir(x, nm) {
+			return ret2(Ptr{}, x.mkError("open "+describe(nm)+": is a directory")), true
+		}
 		fl := f.find(x, nm)
 		switch {
 		case fl == nil && flag&oCREATE == 0:
@@ -274,6 +308,9 @@ func (f *fsModel) intrinsic(x *Exec, name string, args []Value) (Value, bool) {
 		if src == nil {
 			return x.notExist("rename", from), true
 		}
+		if f.isDir(x, to) {
+			return x.mkError("rename " + describe(from) + " " + describe(to) + ": file exists"), true
+		}
 		if dst := f.find(x, to); dst != nil && dst != src {
 			dst.gone = true
 		}
@@ -291,6 +328,9 @@ func (f *fsModel) intrinsic(x *Exec, name string, args []Value) (Value, bool) {
 	case "os.WriteFile":
 		nm := args[0].(Str)
 		h := f.create(x, nm)
+		if h == nil {
+			return x.mkError("open " + describe(nm) + ": is a directory"), true
+		}
 		r := f.write(x, []Value{h, args[1]}).(Tuple)
 		return r[1], true
 	case "os.ReadFile":
